@@ -469,29 +469,25 @@ func (fsys *BackupFS) Rename(oldname, newname string) (err error) {
 		return err
 	}
 
-	resolvedNewname, newNameFound, err := fsys.realPathWithFound(newname)
+	resolvedNewname, err := fsys.realPath(newname)
 	if err != nil {
 		return err
 	}
 
-	if !newNameFound {
-		// only make file known in case that it does not exist, otherwise
-		// overwriting would return an error anyway.
-		err = fsys.tryBackup(resolvedNewname)
-		if err != nil {
-			return err
-		}
-
-		// there either was no previous file to be backed up
-		// but now we know that there was no file or there
-		// was a target file that has to be backed up which was then backed up
-		err = fsys.tryBackup(resolvedOldname)
-		if err != nil {
-			return err
-		}
+	// renaming onto an existing file or symlink replaces it, that is why the
+	// new name needs to be backed up no matter whether it exists or not.
+	err = fsys.tryBackup(resolvedNewname)
+	if err != nil {
+		return err
 	}
-	// in the else case Renaming to a file that already exists
-	// the Rename call will return an error anyway, so we do not backup anything in that case.
+
+	// there either was no previous file to be backed up
+	// but now we know that there was no file or there
+	// was a target file that has to be backed up which was then backed up
+	err = fsys.tryBackup(resolvedOldname)
+	if err != nil {
+		return err
+	}
 
 	err = fsys.base.Rename(resolvedOldname, resolvedNewname)
 	if err != nil {
